@@ -184,7 +184,7 @@ def _run_rename_all(args):
                  and not any(k[0] == b[0] and strip(k[1])[:60] == b[1][:60] for b in bkeys))
     res['new_violations'] = [f'{r} {c}' for r, c in new][:6]
     bc, vc = counts(bctx), counts(vctx)
-    lost = {r: (bc[r], vc.get(r, 0)) for r in bc if vc.get(r, 0) != bc[r]}
+    lost = {r: (bc[r], vc.get(r, 0)) for r in bc if vc.get(r, 0) < bc[r]}   # new helper functions may add rows
     if new:
       res['outcome'] = 'FALSE-ALARM'
     elif lost:
